@@ -44,6 +44,8 @@ def history_in_process(res, drv, n, rng):
     try:
         for i in range(n):
             fw = fixed if i % 2 == 0 else bytes(rng.randrange(256) for _ in range(rng.choice([0, 1, 16, 33])))
+            if i in (7, 151, 152):
+                fw = rng.randbytes([(1 << 20) + 1, 2621440 + 7, 1 << 20][i % 3])        # images of real size in between: the history is one history
             draws.clear()
             enc = mod.Encryptor()
             content, tag, info, digest, ln = enc.encrypt_and_generate(fw, "aes_key", 0x7FFFFFE0, aes_keys_dir(), SuitDigestAlgorithms("sha-256"),
